@@ -41,9 +41,17 @@ def ambient_state():
     import locale
     import os
     import warnings
+    import logging
+    import socket
+    import urllib.parse as up
+    import urllib.request as ur
     ctx = decimal.getcontext()
     return (ctx.prec, ctx.rounding, tuple(sorted(str(k) for k, v in ctx.traps.items() if v)),
-            len(warnings.filters), os.getcwd(), locale.getlocale(), os.environ.get("TZ"))
+            len(warnings.filters), os.getcwd(), locale.getlocale(), os.environ.get("TZ"),
+            # process-wide registries of the standard library that URL-handling code is tempted to "fix"
+            tuple(up.uses_relative), tuple(up.uses_netloc), tuple(up.uses_params),
+            getattr(ur, "_opener", None) is None, socket.getdefaulttimeout(),
+            logging.getLogger().level, len(logging.getLogger().handlers))
 
 
 FORMATS = {
